@@ -43,6 +43,9 @@ def gen_item(seed, tier):
     target = tg.root()
     wild = rng.random() < 0.12
     segs, style = _mut.gen_segs(rng, target, allow_wild=wild, p_absent=0.1)
+    if rng.random() < 0.08:
+        target = tg.hetero_root()
+        segs, style = _mut.hetero_segs(rng)
     knobs = simrun.draw_knobs(rng)
     knobs['path_star'] = True
     return {'target': target, 'segs': segs, 'style': style, 'ignore_missing': rng.random() < 0.4,
@@ -97,7 +100,7 @@ def check_fault_free(G, item, stats):
     R = Run(G, item)
     sh = _mut.Shadow(G, item['target'])
     ck = _final_container_kind(sh, item)
-    verdict = pathedit.model_delete(sh.root, item['segs'])
+    verdict = pathedit.model_delete(sh.root, item['segs'], item['ignore_missing'])
     res = R.res
     im = item['ignore_missing']
     desc = _addr_desc(item) + '/' + ck
